@@ -737,6 +737,22 @@ int main(int argc, char** argv) {
 		}, 8);
 	}
 	phase_done("e_padded_tails");
+	// (h) sizing: one or two boundary code points in front of, behind and around every padding length 0..48 (thorough: 0..80), so that every
+	//     output-size computation is exercised at each code-point width with the result in the inline buffer, in the 20-byte block and in exact-size blocks
+	{
+		const int NP = T ? 81 : 49;
+		vf::parallel((uint64_t)NBND * (NBND + 1), [&](uint64_t i) {
+			if (stop_for_deadline()) return;
+			arm_watchdog();
+			int c1 = BND[i % NBND]; int j = (int)(i / NBND); std::string e1 = enc8(c1), e2 = j < NBND ? enc8(BND[j]) : std::string();
+			for (int pad = 0; pad < NP; pad++) {
+				std::string x(pad, 'x');
+				check_bytes(x + e1 + e2, true, true);
+				if (pad) { check_bytes(e1 + x + e2, true, true); if (!e2.empty()) check_bytes(e1 + e2 + x, true, true); }
+			}
+		}, 2);
+	}
+	phase_done("h_sizing");
 	// (f) case-insensitive equality <=> equal lower-cased forms: all ordered pairs of code points 1..2099 (every 1- and 2-byte code point and the
 	//     table cut-over), and all pairs of strings of <= 2 (thorough: <= 2 against <= 3) code points over the case alphabet
 	{
